@@ -24,6 +24,8 @@ def plan(tier, seed):
     for p, n in enumerate(common.split_counts(400 if q else 5000, 3 if q else 8)):
         specs.append(dict(name="direct-%d" % p, mode="interp", what="direct", n=n, seed=[seed, 199, p]))
     specs.append(dict(name="direct-jit", mode="jit", what="direct", n=60 if q else 600, seed=[seed, 198, 0], jit=True))
+    for p in range(1 if q else 4):
+        specs.append(dict(name="front-jit-%d" % p, mode="jit", what="front", n=6 if q else 20, seed=[seed, 197, p]))
     return specs
 
 
